@@ -5,5 +5,5 @@ From Coq Require Import String.
 From QSCGen Require Import G_pins.
 Open Scope string_scope.
 
-Lemma pin_r_singularity_selection_current : pin_r_singularity_selection = "ad1af898219462c2c866f915685a30f9e51dfe1a612e42828028d5b55546cc9a".
+Lemma pin_r_singularity_selection_current : pin_r_singularity_selection = "a7e765385bbf3dbb727c7690d1745503c6f4faa2f6b64fdb558e72840e52c2a8".
 Proof. reflexivity. Qed.
